@@ -4,6 +4,8 @@ import (
 	"bytes"
 	"crypto/sha256"
 	"fmt"
+	"strings"
+	"sync/atomic"
 
 	"filippo.io/age"
 	"filippo.io/age/zverif/ax"
@@ -22,13 +24,16 @@ type dfile struct {
 	how     string // how the bytes were derived (for replays)
 	data    []byte
 
-	id    age.Identity
-	hdr16 int    // header + nonce length of the undamaged binary file
-	lead  int    // extra armor text that is not payload (leading white space, CRs)
-	pt    []byte // plaintext (class "valid" only)
+	id      age.Identity
+	dearmor bool   // armored files whose armor text is of interest on its own
+	hdr16   int    // header + nonce length of the undamaged binary file
+	lead    int    // extra armor text that is not payload (leading white space, CRs)
+	pt      []byte // plaintext (class "valid" only)
 
 	streamKey []byte // binary files: key and payload for the direct stream layer
 	parseToo  bool   // binary files whose class is interesting for format.Parse
+
+	runs, mismatches atomic.Int64 // compared runs over this file / runs that differed
 
 	// baselines
 	bDecrypt, bDearmor, bParse, bStream *outcome
@@ -162,7 +167,8 @@ func (m *monitor) decLengths() []int {
 	rng := r.RNG("dec-lengths")
 	ls := []int{0, 1, 65536, 65537, 131072, 196609, 3 + rng.Intn(300), 200000 + rng.Intn(60000)}
 	if r.Thorough() {
-		ls = append(ls, 2, 65535, 131071, 131073, 196608, 3+rng.Intn(60000), 65538+rng.Intn(65000), 327680, 400000)
+		ls = append(ls, 2, 65535, 131071, 131073, 196608, 3+rng.Intn(60000), 65538+rng.Intn(65000), 327680, 400000,
+			48*(1+rng.Intn(1000)), 131074+rng.Intn(65000), 262144+rng.Intn(65000))
 	}
 	return ls
 }
@@ -179,13 +185,20 @@ func (m *monitor) buildFiles() []*dfile {
 		length int
 		party  string
 		extra  age.Recipient
+		full   bool // every damage class (otherwise the reduced set below)
 	}
+	reduced := map[string]bool{"flip-last": true, "trunc-boundary": true, "trunc-mid-last": true, "trailing-1": true,
+		"hdr-trunc": true, "nonce-trunc": true, "mac-flip": true, "armor-badchar": true, "armor-trailing-garbage": true, "armor-no-final-newline": true}
 	var specs []baseSpec
-	for _, n := range m.decLengths() {
-		specs = append(specs, baseSpec{fmt.Sprintf("len=%d", n), n, "X1", nil})
+	for i, n := range m.decLengths() {
+		// quick tier: every class on 0, 1, 65536, 131072 and 196609 bytes (the
+		// first, third, fifth and sixth lengths), the reduced set elsewhere
+		full := r.Thorough() || i <= 1 || i == 2 || i == 4 || i == 5
+		specs = append(specs, baseSpec{fmt.Sprintf("len=%d", n), n, "X1", nil, full})
 	}
-	specs = append(specs, baseSpec{"len=70000+bighdr", 70000, "X1", bigHeader()},
-		baseSpec{"len=66000+scrypt", 66000, "S1", nil})
+	specs = append(specs, baseSpec{fmt.Sprintf("len=%d+armor-aligned", m.alignedLength()), m.alignedLength(), "X1", nil, r.Thorough()})
+	specs = append(specs, baseSpec{"len=70000+bighdr", 70000, "X1", bigHeader(), r.Thorough()},
+		baseSpec{"len=66000+scrypt", 66000, "S1", nil, r.Thorough()})
 
 	var files []*dfile
 	seen := map[[32]byte]bool{}
@@ -215,6 +228,9 @@ func (m *monitor) buildFiles() []*dfile {
 		hdr16 := o.HeaderLen + 16
 		origin := fmt.Sprintf("ax.Encrypt(mon.DetBytes(%q, %d)) to %s under tape c12-files-%d", ptLabel, sp.length, sp.party, r.Seed)
 		mk := func(armored bool, class, how string, data []byte) *dfile {
+			if !sp.full && !reduced[class] && !strings.HasPrefix(class, "valid") {
+				return nil
+			}
 			h := sha256.Sum256(append([]byte{map[bool]byte{false: 0, true: 1}[armored]}, data...))
 			if seen[h] {
 				return nil
@@ -222,6 +238,9 @@ func (m *monitor) buildFiles() []*dfile {
 			seen[h] = true
 			f := &dfile{base: sp.name, length: sp.length, armored: armored, class: class, how: origin + "; " + how,
 				data: data, id: p.Identity, hdr16: hdr16}
+			// armor of a damaged payload is ordinary valid armor: de-armoring it
+			// alone repeats the "valid" case, so only the thorough tier does it
+			f.dearmor = armored && (r.Thorough() || strings.HasPrefix(class, "valid") || strings.HasPrefix(class, "armor-") || class == "hdr-trunc")
 			files = append(files, f)
 			return f
 		}
@@ -264,4 +283,21 @@ func (m *monitor) buildFiles() []*dfile {
 	}
 	r.Set("decrypt_side_files", len(files))
 	return files
+}
+
+// alignedLength returns a plaintext length (about 1000) whose file for the
+// single recipient X1 is a multiple of 48 bytes long, so that its armor ends
+// with a full 64-column line. Must be called while a tap is installed or not
+// at all concurrently with tape-driven encryption (it encrypts once).
+func (m *monitor) alignedLength() int {
+	if m.aligned > 0 {
+		return m.aligned
+	}
+	file, err := ax.Encrypt(make([]byte, 1000), false, keys.P("X1").Recipient)
+	if err != nil {
+		m.aligned = 1000
+		return m.aligned
+	}
+	m.aligned = 1000 + (48-len(file)%48)%48
+	return m.aligned
 }
